@@ -93,6 +93,14 @@ def from_json(val, tyt):
                 if len(flds) == len(val["struct"]):
                     return ("adt", tyt["path"], 0, a["variants"][0]["name"],
                             tuple(from_json(v, fl.get("tyt")) for v, fl in zip(val["struct"], flds)))
+        if isinstance(val, dict) and "struct" in val and tyt["path"] in ("std::ops::Range", "std::ops::RangeInclusive", "std::ops::RangeFrom",
+                                                                     "std::ops::RangeTo", "std::ops::RangeToInclusive") and tyt.get("args"):
+            # the std range types: `start`/`end` of the index type (RangeInclusive has a third field `exhausted: bool`)
+            et = tyt["args"][0]
+            name = tyt["path"].rsplit("::", 1)[1]
+            vs = val["struct"]
+            flds = [from_json(v, et) for v in vs[:2]] + [from_json(v, {"k": "prim", "name": "bool"}) for v in vs[2:]]
+            return ("adt", tyt["path"], 0, name, tuple(flds))
         return TOP
     if k in ("array", "slice"):
         if not isinstance(val, list):
